@@ -9,6 +9,7 @@ import (
 	"path/filepath"
 	"runtime"
 	"sort"
+	"strconv"
 	"strings"
 	"time"
 
@@ -172,6 +173,8 @@ func cmdRun(args []string) int {
 	solver := fs.String("solver", "z3", "solver")
 	cross := fs.String("cross", "", "cross-check solver (cvc5, z3-new)")
 	verbose := fs.Bool("v", false, "print functions and stubs")
+	bounds := fs.String("bound", "", "comma separated bound overrides name=value")
+	slow := fs.String("slow", "", "comma separated switch classes at which goroutines park by default (slow-plugin policy)")
 	fs.Parse(args)
 	prog, st, _, err := loadProgram([]string{*dir})
 	if err != nil {
@@ -188,6 +191,17 @@ func cmdRun(args []string) int {
 	for _, s := range strings.Split(*sw, ",") {
 		if s != "" {
 			cfg.SwitchOn[s] = true
+		}
+	}
+	for _, s := range strings.Split(*slow, ",") {
+		if s != "" {
+			cfg.SlowYield = append(cfg.SlowYield, s)
+		}
+	}
+	for _, s := range strings.Split(*bounds, ",") {
+		if k, v, ok := strings.Cut(s, "="); ok {
+			n, _ := strconv.Atoi(v)
+			cfg.Bounds[k] = n
 		}
 	}
 	ex := &sx.Explorer{P: prog, Cfg: cfg, Entry: entry, Workers: *workers, SolverKind: *solver, TimeoutMS: 20000, MaxPaths: *maxPaths, CrossSolver: *cross}
